@@ -49,6 +49,34 @@ class OrdFermionOp:
     def __sub__(self, o):
         return self.copy()._acc(o, -1)
 
+    def __imul__(self, o):
+        """openfermion's in-place product: left-major over the terms, ladder operators concatenated (no re-ordering), equal products added up"""
+        if isinstance(o, (int, float, complex)):
+            for t in self.terms:
+                self.terms[t] *= o
+            return self
+        if not isinstance(o, OrdFermionOp):
+            return NotImplemented
+        out: Dict[tuple, complex] = {}
+        for ta, ca in list(self.terms.items()):
+            for tb, cb in list(o.terms.items()):
+                out[ta + tb] = out.get(ta + tb, 0) + ca * cb
+        self.terms = out
+        return self
+
+    def __mul__(self, o):
+        r = self.copy()
+        r *= o
+        return r
+
+    def __rmul__(self, o):
+        if isinstance(o, (int, float, complex)):
+            return self.__mul__(o)
+        return NotImplemented
+
+    def __neg__(self):
+        return self.__mul__(-1)
+
 
 def hermitian_conjugated(op: OrdFermionOp) -> OrdFermionOp:
     r = OrdFermionOp()
